@@ -97,13 +97,14 @@ SPEC = {
                                   'seq_count_bounds', 'seq_never_micro', 'seq_symbol_count', 'seq_fixed_version', 'C08_refuted_fit',
                                   'seq_fits_partial', 'seq_fits_stream'])]),
  'C14': dict(title='arguments are honoured or refused with ValueError; nothing else escapes',
-   imports='Ref.IsoData Ref.Spec Model.Bits Model.Segment Model.Version Model.Stream Model.Matrix Model.Encode Model.Sequence Model.Color Model.Args Lemmas.VersionLemmas Lemmas.ExnLemmas',
-   intro='''Model/Args.v encode_args = encoder.encode with RAW arguments (None / bool / int / ASCII str).  allowed e := ValueError, DataOverflow
+   imports='Base.PyCase Ref.IsoData Ref.Spec Model.Bits Model.Segment Model.Version Model.Stream Model.Matrix Model.Encode Model.Sequence Model.Color Model.Args Lemmas.VersionLemmas Lemmas.ExnLemmas',
+   intro='''Model/Args.v encode_args = encoder.encode with RAW arguments (None / bool / int / str; py_upper / py_lower = Base/PyCase.v: Python's
+   str.upper() / lower() as far as ASCII characters are concerned, e.g. the Kelvin sign lowers to 'k').  allowed e := ValueError, DataOverflow
    (a ValueError), UnicodeErr (a ValueError) or LookupErr (unknown codec).  IndexErr, KeyErr, TypeErr, AssertErr, AttributeErr are proved unreachable.
    Serializer arguments: see the refusal theorems of the format lemma files (C09/C10); command line process behaviour: correspondence only.''',
    items=[('Lemmas/ExnLemmas.v', ['normalize_version_exn', 'normalize_mode_exn', 'normalize_errorlevel_exn', 'normalize_mask_exn',
                                   'normalize_version_ok', 'normalize_version_int', 'normalize_version_str_int', 'normalize_version_str_iff', 'normalize_version_upper',
-                                  'normalize_mode_str_iff', 'normalize_mode_lower', 'normalize_errorlevel_str_iff', 'normalize_errorlevel_upper',
+                                  'normalize_mode_str_iff', 'normalize_mode_lower', 'normalize_errorlevel_str_iff', 'normalize_errorlevel_str_ascii', 'normalize_errorlevel_upper',
                                   'normalize_mask_int', 'normalize_mask_str_int',
                                   'encode_args_exn_class_gen', 'encode_args_exn_class_content', 'encode_args_no_internal_error',
                                   'excluded_H_micro', 'excluded_eci_micro', 'excluded_mode_version', 'excluded_hanzi_micro', 'excluded_version',
